@@ -17,6 +17,22 @@ CHECKS = {
              "Overlap.construct_array_contraction of /repo on every run. The 1e-8 accuracy clause is decided on the "
              "generated inputs only.",
         design="5 C01", technique="Coq proof (induction over the recursion) + model/implementation correspondence"),
+    "C20": dict(
+        text="Coq theorems about the executable Gallina model of is_integral_screened / construct_array_contraction / "
+             "overlap_integral with tol_screen (Model/Screening.v). For every field: tol=None is no screening "
+             "(decision, block, assembled matrix); a kept pair contributes exactly the unscreened block, a removed "
+             "pair the all-zero block of shape (M_a,L_a,M_b,L_b); the assembled screened matrix (any basis, "
+             "transform, tolerance) is the same triangle assembly of the unscreened processed blocks and same-shape "
+             "zero matrices. For the model at the reals (sqrt, exp, ln of the standard library; classical-real "
+             "axioms): the squared comparison is the documented |R_a-R_b| > sqrt(-(a+b)/(ab) ln tol) with a, b the "
+             "minima of the exponent lists for all tol in (0,1]; monotone in the tolerance; depends on the exponents "
+             "only through the minima; every removed s-s element is < tol x (n_a sum|d_i|)(n_b sum|d_j|) (with "
+             "mu increasing in each exponent, AM-GM prefactor <= 1, and the primitive formula shown equal to the "
+             "model's normalised s-s primitive; the contraction of the model block into the abstract double sum is "
+             "checked numerically, not proved). Correspondence on every run: block pattern, kept blocks bitwise, "
+             "exact values 1e-8, None, monotonicity, min-vs-max exponents, s bound, transform, bool rejected; pairs "
+             "within 1e-9 relative of the cutoff accept either decision.",
+        design="5 C20", technique="Coq proof (lists + real analysis with lra/nra) + model/implementation correspondence"),
 }
 NOT_YET = {}
 
